@@ -23,6 +23,18 @@ CHECKS = {
         text="from_octets(to_octets(m)) == m for generated and enumerated messages (all 8192 header combinations exhaustively; bodies with shared names; encodings from 12 B to 64 KiB with the first occurrence of a name at every offset 16370..16400), the same bytes decode to the same message with the independent decoder, every emitted pointer addresses an earlier in-line copy of the identical name, and decode(encode(decode b)) == decode b for decodable byte strings.",
         note="R-WIRE decoder and the pointer audit walker are trusted; equality is judged through public fields and the implementation's PartialEq.",
         ref="DESIGN.md §4 C04"),
+    "C05": dict(
+        level="exploration",
+        technique=PBT + "; stateful model-based testing: operation histories on a virtual clock against a map model (name,type,data)->expiry",
+        text="Random histories of insert / re-insert / typed, ANY and unchecked lookup / prune / clock advance (second and sub-second steps around each TTL) run against SharedCache and Cache on a virtual clock; after every lookup the result is judged against the model (never past TTL, reported TTL <= time left, live records returned exactly once, data unchanged) and after every step the stored set equals the model.",
+        note="Hooks H1 (virtual clock) and H4 (snapshot) are trusted to be faithful; sub-second remainders are a stated tolerance.",
+        ref="DESIGN.md §4 C05"),
+    "C15": dict(
+        level="exploration",
+        technique=PBT + "; stateful model-based testing with an LRU model and structural invariants after every step; OS-thread stress runs for the concurrent clause",
+        text="Every prune in a generated history is judged by a sequential LRU model (true expired/evicted/remaining counts, nothing expired left, size bound, whole names, LRU order up to stated use intervals, eviction only while over size); after every operation the record count equals the number of distinct entries and the documented queue/next-expiry invariants hold. Concurrent clause: 2..8 threads on one SharedCache, invariants at quiescence (schedule not controlled).",
+        note="Hooks H1/H4 trusted; thread schedules are the OS's (DESIGN §7).",
+        ref="DESIGN.md §4 C15"),
     "C16": dict(
         level="exploration",
         technique=PBT + "; validity predicate + metamorphic case-flip relation; exhaustive enumeration at the 63/255 boundaries",
